@@ -66,3 +66,5 @@ func verifFDIsName(f *os.File, name string) bool
 func verifStdout() string
 func verifTempDir() string
 func verifNameEq(a, b string) bool
+func verifNoLocksHeld() bool
+func verifCaptureStd()
